@@ -14,6 +14,18 @@ HARNESS = os.path.join(VERIF, "harness")
 BUILD = os.path.join(VERIF, ".build")
 EVID = os.path.join(VERIF, "evidence")
 REPLAYS = os.path.join(VERIF, "replays")
+# Self-test of the machinery (bin/selftest): VERIF_SELFTEST=vector corrupts ONE expectation that TLC
+# emitted, VERIF_SELFTEST=trace corrupts ONE field of ONE recorded event before trace validation.  The
+# check must then exit 1.  Evidence and replays of such runs go to .build/selftest, never to evidence/.
+SELFTEST = os.environ.get("VERIF_SELFTEST", "")
+if SELFTEST:
+    EVID = os.path.join(BUILD, "selftest", "evidence")
+    REPLAYS = os.path.join(BUILD, "selftest", "replays")
+_selftest_done = []
+if REPO != "/repo":      # checking a scratch copy (bin/seedrun): never touch evidence/ or replays/
+    _alt = os.path.join(BUILD, "alt", hashlib.sha1(REPO.encode()).hexdigest()[:10])
+    EVID = os.path.join(_alt, "evidence")
+    REPLAYS = os.path.join(_alt, "replays")
 
 GOENV = dict(GOFLAGS="-mod=mod", GOPROXY="off", GOSUMDB="off", GOTOOLCHAIN="local",
              CGO_ENABLED="1")
@@ -61,21 +73,37 @@ def go_env():
     return e
 
 
+def harness_dirs(ctx):
+    """-> (module dir, output dir).  With VERIF_REPO set (checking a scratch copy of DemoHn/Zn, e.g. a
+    seeded change in a worktree) the harness module is copied to the scratch dir with its replace
+    directive pointing there, and binaries stay in the scratch dir, so runs on different trees never share
+    a binary."""
+    if REPO == "/repo":
+        os.makedirs(BUILD, exist_ok=True)
+        return HARNESS, BUILD
+    d = os.path.join(ctx.scratch, "harness")
+    if not os.path.isdir(d):
+        shutil.copytree(HARNESS, d)
+        gm = open(os.path.join(d, "go.mod")).read().replace("=> /repo", "=> " + REPO)
+        open(os.path.join(d, "go.mod"), "w").write(gm)
+    return d, ctx.sub("bin")
+
+
 def build_harness(ctx, cmd="znh", race=False, tags="verif"):
-    """Build harness/cmd/<cmd> against /repo's current working tree (replace => /repo)."""
-    os.makedirs(BUILD, exist_ok=True)
+    """Build harness/cmd/<cmd> against the current working tree of DemoHn/Zn (replace => /repo)."""
+    hdir, bdir = harness_dirs(ctx)
     # go.sum of the harness must contain the repo's sums
     try:
-        shutil.copyfile(os.path.join(REPO, "go.sum"), os.path.join(HARNESS, "go.sum"))
+        shutil.copyfile(os.path.join(REPO, "go.sum"), os.path.join(hdir, "go.sum"))
     except OSError:
         pass
-    out = os.path.join(BUILD, cmd + ("-race" if race else ""))
+    out = os.path.join(bdir, cmd + ("-race" if race else ""))
     args = ["go", "build", "-tags", tags, "-o", out]
     if race:
         args.append("-race")
     args.append("./cmd/" + cmd)
     t = time.time()
-    p = subprocess.run(args, cwd=HARNESS, env=go_env(), capture_output=True, text=True)
+    p = subprocess.run(args, cwd=hdir, env=go_env(), capture_output=True, text=True)
     if p.returncode != 0:
         raise NoVerdict("harness build failed:\n" + p.stdout + p.stderr)
     log("[build] %s in %.1fs" % (cmd, time.time() - t))
@@ -178,7 +206,95 @@ def vectors(txt, key=None):
                 continue
             if key is None or (isinstance(v, dict) and v.get("k") == key):
                 out.append(v)
+    if SELFTEST == "vector" and not _selftest_done:
+        # drivers may replay a sample of the vectors: corrupt every 40th so that the sample contains some
+        n = 0
+        for v in out[::40]:
+            if isinstance(v, dict) and _corrupt_vector(v):
+                n += 1
+        if n:
+            _selftest_done.append(n)
+            log("[selftest] corrupted %d of %d %r vectors" % (n, len(out), out[0].get("k")))
     return out
+
+
+def _bump(val):
+    """change a tagged spec value / plain scalar into a different one of the same shape"""
+    if isinstance(val, bool): return not val
+    if isinstance(val, int): return val + 1
+    if isinstance(val, str): return val + "x"
+    if isinstance(val, list): return val + val[:1] if val else [0]
+    if isinstance(val, dict):
+        for f in ("v", "p", "s"):
+            if f in val:
+                val[f] = _bump(val[f]); return val
+        val["k"] = "null" if val.get("k") != "null" else "bool"
+        return val
+    return val
+
+
+def _corrupt_vector(v):
+    k = v.get("k")
+    if k == "coll" or k == "hist":
+        if not v["h"]: return False
+        v["h"][-1]["r"] = _bump(v["h"][-1]["r"]); return True
+    if k == "prog":
+        if v.get("skip"): return False
+        if v["out"]:
+            v["out"][0][0] = _bump(v["out"][0][0]); return True
+        if v["res"]["k"] == "value":
+            v["res"]["v"] = _bump(v["res"]["v"]); return True
+        return False
+    if k == "expr":
+        if v["out"] != "done": return False
+        v["val"] = _bump(v["val"]); return True
+    if k == "file":
+        if not v["ok"]: return False
+        v["chars"] = v["chars"] + v["chars"][:1] if v["chars"] else ["x41"]; return True
+    if k == "lex":
+        if not v["ok"] or v["soft"] or not v["toks"]: return False
+        v["toks"][-1]["b"] += 1; return True
+    if k == "num":
+        v["c"] = "int" if v["c"] != "int" else "err"; return True
+    if k == "pos":
+        v["line"] += 1; return True
+    if k == "str":
+        if not v["ok"] or v["soft"]: return False
+        v["val"] = v["val"] + ["x"]; return True
+    if k == "text":
+        v["len"] += 1; return True
+    if k == "mod":
+        v["trace"] = v["trace"] + v["trace"][:1] if v["trace"] else v["trace"]
+        return bool(v["trace"])
+    if k == "iso":
+        v["isolated"] = not v["isolated"]; return True
+    if k == "inv":
+        if v["out"] == "value": v["out"] = "error"; return True
+        return False
+    if k == "dicteq":
+        v["eq"] = not v["eq"]; return True
+    if k == "tree":
+        v["tree"] = v["tree"][:-1]; return True
+    return False
+
+
+def corrupt_trace(path, fields):
+    """VERIF_SELFTEST=trace: bump one of `fields` in the middle line of an ndjson trace file."""
+    if SELFTEST != "trace" or _selftest_done:
+        return
+    lines = open(path).read().splitlines()
+    for i in list(range(len(lines) // 2, len(lines))) + list(range(len(lines) // 2)):
+        e = json.loads(lines[i])
+        if "reset" in (e.get("o"), e.get("e")):      # separator lines carry no recorded state
+            continue
+        for f in fields:
+            if f in e and not isinstance(e[f], (list, dict)) and e[f] not in ("", None):
+                e[f] = _bump(e[f])
+                lines[i] = json.dumps(e)
+                open(path, "w").write("\n".join(lines) + "\n")
+                _selftest_done.append((i + 1, f))
+                log("[selftest] corrupted field %r of trace line %d" % (f, i + 1))
+                return
 
 
 # ---------------------------------------------------------------- harness run
